@@ -1,4 +1,5 @@
 import Upd.Router
+import Upd.GC
 open Upd
 
 def kv (toks : List String) (k : String) : String :=
@@ -12,15 +13,18 @@ def mkQ (t : List String) : Q :=
 
 def csv (s : String) : List String := if s = "" then [] else s.splitOn ","
 
+/-- digest tokens are canonicalised (`x*40` and its expansion are one digest) -/
+def canonDig (tok : String) : String := match DigArg.parse tok with | .ok d => d.str | .bad => tok
+
 def parseChild (s : String) : Desc :=
   match s.splitOn "/" with
-  | [mt, dig, size] => { mt := mt, dig := dig, size := size.toNat?.getD 0 }
+  | [mt, dig, size] => { mt := mt, dig := canonDig dig, size := size.toNat?.getD 0 }
   | _ => {}
 
 def mkBody (kind : String) (t : List String) : Body :=
-  { kind := kind, mtField := kv t "mt", cfg := kv t "cfg", cfgMt := kv t "cfgmt", layers := csv (kv t "layers"),
+  { kind := kind, mtField := kv t "mt", cfg := canonDig (kv t "cfg"), cfgMt := kv t "cfgmt", layers := (csv (kv t "layers")).map canonDig,
     children := ((kv t "children").splitOn ";").filter (· ≠ "") |>.map parseChild,
-    subj := kv t "subj", atype := kv t "at", rann := kv t "ann", len := (kv t "len").toNat?.getD 0 }
+    subj := canonDig (kv t "subj"), atype := kv t "at", rann := kv t "ann", len := (kv t "len").toNat?.getD 0 }
 
 def pubOf (s : String) : Nat := ((s.drop 1).toString.toNat?).getD 0     -- "s3" ↦ 3, anything else ↦ 0 (unknown)
 
@@ -32,7 +36,9 @@ def natOr (t : List String) (k : String) (dflt : Nat) : Nat :=
 def mkConf (t : List String) : Conf :=
   { store := (match kv t "store" with | "" => "mem" | v => v), ro := flag t "ro" false, push := flag t "push" true,
     del := flag t "del" true, bdel := flag t "bdel" true, ref := flag t "ref" true,
-    mlimit := natOr t "mlimit" 8388608, rlimit := natOr t "rlimit" 4194304, upmax := natOr t "upmax" 0 }
+    mlimit := natOr t "mlimit" 8388608, rlimit := natOr t "rlimit" 4194304, upmax := natOr t "upmax" 0,
+    untagged := flag t "untagged" false, dangling := flag t "dangling" false, withsubj := flag t "withsubj" true,
+    emptyrepo := flag t "emptyrepo" true, grace := (match kv t "grace" with | "" => false | "-1" => false | _ => true) }
 
 def mkQ' (t : List String) : Q :=
   { mount := kv t "mount", fromR := kv t "from", digest := kv t "digest", algo := kv t "algo",
@@ -63,14 +69,38 @@ def step (s : State) (line : String) : State × String :=
   | "REFS" :: r :: arg :: rest => out (Upd.step s (.refs r arg (kv rest "at") (kv rest "cache") (kv rest "page")))
   | ["RAW", m, path] => let (s', o) := Upd.stepRaw s m (unescape path); (s', s!"{o.status} code={o.code}")
   | ["RAW", m] => let (s', o) := Upd.stepRaw s m ""; (s', s!"{o.status} code={o.code}")
+  | ["GC", r] => (gcRepo s r, "gc-ok")
+  | ["SETTIME", r, d, age] =>
+    (match DigArg.parse d with
+     | .ok dg =>
+       let rp := s.repo r
+       if (rp.blob dg).isSome then
+         (s.setRepo { rp with old := if age = "old" then (if rp.old.contains dg then rp.old else rp.old ++ [dg]) else rp.old.filter (· ≠ dg) }, "settime-ok")
+       else (s, "settime-error")
+     | .bad => (s, "settime-error"))
   | "NEW" :: conf => ({ defs := s.defs, resps := s.resps, conf := mkConf conf }, "new")
   | _ => (s, "bad-op")
 
-partial def loop (h : IO.FS.Stream) (out : IO.FS.Stream) (s : State) : IO Unit := do
+/-- merge configuration tokens: later keys override earlier ones -/
+def mergeToks (old new : List String) : List String :=
+  let key := fun (t : String) => (t.splitOn "=").headD ""
+  old.filter (fun t => !new.any (fun n => key n = key t)) ++ new
+
+partial def loop (h : IO.FS.Stream) (out : IO.FS.Stream) (s : State) (toks : List String) : IO Unit := do
   let line ← h.getLine
   if line.isEmpty then return ()
-  let (s', o) := step s line
-  out.putStrLn o
-  loop h out s'
+  match (line.trimAscii.toString.splitOn " ").filter (· ≠ "") with
+  | "NEW" :: conf =>
+    let (s', o) := step s line
+    out.putStrLn o
+    loop h out s' conf
+  | "RESTART" :: conf =>
+    let toks' := mergeToks toks conf
+    out.putStrLn "restarted"
+    loop h out (restart s (mkConf toks')) toks'
+  | _ =>
+    let (s', o) := step s line
+    out.putStrLn o
+    loop h out s' toks
 
-def main : IO Unit := do loop (← IO.getStdin) (← IO.getStdout) {}
+def main : IO Unit := do loop (← IO.getStdin) (← IO.getStdout) {} []
